@@ -172,7 +172,7 @@ def r07_1(chk, sht, pyx, K):
     for e in ev.events:
         if e.kind == "store":
             t = e.target.as_atom()
-            if t and t[0] == "attr" and t[1].key() == "self" and t[2] in ("fft_work_array", "plm_work_array"):
+            if t and t[0] == "attr" and t[1].key() == "self":
                 a = e.value.as_atom()
                 if a and a[0] == "call" and call_name(a) in ("numpy.empty", "numpy.zeros"):
                     sizes[t[2]] = a[2][0].key()
@@ -186,10 +186,10 @@ def r07_1(chk, sht, pyx, K):
         for e in ev.events:
             if e.kind == "assign" and e.name == "coeffs":
                 a = e.value.as_atom()
-                init = a[3].as_atom() if a and a[0] == "obj" else a
-                if not (init and init[0] == "call"):
+                init = a[3] if a and a[0] == "obj" else e.value
+                ia = init.as_atom()
+                if not (ia and ia[0] in ("call", "ite", "attr")):
                     continue
-                size = init[2][0].key()
                 real_branch = None
                 for c, pol in e.guards:
                     if "iscomplexobj" in c.key():
@@ -199,9 +199,10 @@ def r07_1(chk, sht, pyx, K):
                     real_branch = False
                 elif q.endswith("pure_python"):
                     real_branch = True
-                want = "self.nplm()" if real_branch else "self.nlm()"
-                chk.ob("R07.1", SHT, q, f"the {'real' if real_branch else 'complex'} coefficient vector has {want} entries",
-                       size == want, node=e.node, fingerprint=f"size:{real_branch}", expected=want, found=size)
+                for rb, size in _sizes_of(init, sizes, real_branch, q):
+                    want = "self.nplm()" if rb else "self.nlm()"
+                    chk.ob("R07.1", SHT, q, f"the {'real' if rb else 'complex'} coefficient vector has {want} entries",
+                           size == want, node=e.node, fingerprint=f"size:{rb}", expected=want, found=size)
     ev = pyx.ev("expand_coeffs_to_full")
     ok = False
     for e in ev.events:
@@ -612,6 +613,32 @@ def r07_7(chk, sht):
             break
     chk.ob("R07.7", SHT, "SHT.__init__", "the default ntheta is lmax + 1 rounded up (never down), so ntheta >= L + 1", ok,
            expected="chain of round-up steps from self.lmax + 1", found=f"{ntheta} (steps: {steps})")
+
+
+def _sizes_of(term, attr_sizes, real_branch, q):
+    """[(real layout?, size key)] of an allocation, through *_like / copy, instance buffers sized in __init__ and a real/complex choice."""
+    a = term.as_atom()
+    if a and a[0] == "ite":
+        c = a[1]
+        if "iscomplexobj" not in c.key():
+            raise AnalysisError(f"{q}: coefficient vector chosen by an unrecognised condition {c}")
+        neg = bool(c.as_atom() and c.as_atom()[0] == "not")
+        return _sizes_of(a[2], attr_sizes, neg, q) + _sizes_of(a[3], attr_sizes, not neg, q)
+    if a and a[0] == "obj":
+        return _sizes_of(a[3], attr_sizes, real_branch, q)
+    if a and a[0] == "attr" and a[1].key() == "self":
+        if a[2] not in attr_sizes:
+            raise AnalysisError(f"{q}: size of self.{a[2]} is not set in SHT.__init__")
+        return [(real_branch, attr_sizes[a[2]])]
+    if a and a[0] == "call":
+        cn = call_name(a)
+        if cn in ("numpy.zeros", "numpy.empty", "numpy.ones", "numpy.full") and a[2]:
+            return [(real_branch, a[2][0].key())]
+        if cn in ("numpy.zeros_like", "numpy.empty_like", "numpy.ones_like", "numpy.copy", "numpy.array") and a[2]:
+            return _sizes_of(a[2][0], attr_sizes, real_branch, q)
+        if cn in (".copy", ".astype"):
+            return _sizes_of(a[1].as_atom()[1], attr_sizes, real_branch, q)
+    raise AnalysisError(f"{q}: unrecognised allocation of the coefficient vector: {str(term)[:100]}")
 
 
 # ------------------------------------------------------------------------------------------------ R07.8
